@@ -638,7 +638,10 @@ class Interp:
             if r is not None:
                 return r
         res = strip_generics(t.get('resolved') or t.get('callee'))
-        wb = self.facts.body(res) if res else None
+        # (the exact path first: two impls of one trait for SmallVec<[A; 4]> and SmallVec<[B; 4]> share the stripped name)
+        wb = self.facts.bodies.get(t.get('resolved')) if t.get('resolved') else None
+        if wb is None:
+            wb = self.facts.body(res) if res else None
         if wb is None and name != res:
             wb = self.facts.body(name)
         if wb is not None and wb.derived and args:
